@@ -52,6 +52,12 @@ pub fn explore(opts: &Opts) -> Explored {
                 for input in [vec![inp], vec![1, inp], vec![2, inp], vec![3, inp]] {
                     items.push(Item::Layer { cfg: LayerCfg::Dense { inp, out, act }, input, ext: false });
                 }
+                // batches of batches of row vectors: the leading dimensions are kept
+                if act != Act::Softmax || inp <= 2 {
+                    for input in [vec![2, 2, inp], vec![2, 3, inp], vec![1, 2, inp], vec![2, 1, 2, inp]] {
+                        items.push(Item::Layer { cfg: LayerCfg::Dense { inp, out, act }, input, ext: false });
+                    }
+                }
             }
         }
     }
